@@ -21,6 +21,7 @@ func init() {
 			"marshalled and returned (a new protobuf field creates a new obligation automatically); FrontendTransaction.Signature is left empty. InterceptedTransaction.verifySig passes to the signer, with the " +
 			"transaction's own Signature, the bytes returned by GetDataForSigning of that same transaction (or their hash under the sign-with-hash option), and the key derived from that transaction's sender. " +
 			"The flow of each field into the DTO passes conversions and encoder calls only: no arithmetic/bit operation, bounded slice or narrowing integer conversion (they would map different field values to the same signed bytes). " +
+			"integrity(tx) validates fields of its argument only. " +
 			"Not decided: injectivity of the encoders (assumed), signature scheme.",
 		Assume: []string{"bech32 encoding of fixed-length addresses, big.Int.String and JSON encoding of valid UTF-8 / base64 byte strings are injective"},
 		Run:    runC24,
